@@ -8,7 +8,7 @@ from .. import common, meta, progs, cfggen, robust
 LEVEL = "proof"
 RULE = ("Lean: writes to map keys a program never looks up are invisible to it; token classification (IsClassIdentifier / IsConstIdentifier over the flat BuiltinClasses list) ignores added "
         "short names the identifier does not equal; the collision case is refuted with a witness. Streams tok (classification with the configured class list) and config. End-to-end: corpus and "
-        "generated programs analysed with and without generated extra configuration files whose class names the program never mentions (plain and namespaced `Frame::Name`); outputs of ti and ti -i "
+        "generated programs analysed with and without generated extra configuration files whose class names the program never mentions (plain, in other frames, and namespaced `Zq::Name` where `Name` is a class the program defines itself); outputs of ti and ti -i "
         "must be identical. Non-trivial = baseline output non-empty.")
 
 
@@ -26,6 +26,14 @@ def extra_files(rng, mentioned):
                "extends": rng.choice([[], [], ["String"], ["Enumerable"]])}
         assert name not in mentioned
         files["qx_extra_%d.json" % i] = cls
+    # a namespaced class whose LAST segment is a class the program defines itself: `Zq::Item` is not `Item`
+    own = sorted(set(re.findall(r"^\s*class\s+([A-Z][A-Za-z0-9]*[a-z][A-Za-z0-9]*)\b", mentioned, re.M)))
+    if own and rng.random() < 0.7:
+        short = rng.choice(own)
+        files["qx_ns_%s.json" % short.lower()] = {
+            "frame": rng.choice(["Builtin", "Builtin", ""]), "class": "Zq::" + short,
+            "instance_methods": [{"name": rng.choice(["price", "qx_only", "zz_nope", "name", "size"]), "arguments": [], "return_type": {"type": ["Int"]}} for _ in range(2)],
+            "class_methods": [{"name": "qx_make", "arguments": [], "return_type": {"type": ["Int"]}}], "extends": [], "constants": []}
     return files
 
 
@@ -51,7 +59,21 @@ def run_e2e(ctx, n, tag):
         d0, d1, t, ex = job
         meta.write(d0, "p.rb", t)
         meta.write(d1, "p.rb", t)
-        return meta.outputs(ctx, d0, "p.rb", meta.STD_FLAGS), meta.outputs(ctx, d1, "p.rb", meta.STD_FLAGS)
+        a = meta.outputs(ctx, d0, "p.rb", meta.STD_FLAGS)
+        # aim the lookalike at what the baseline reports: `Zq::C` declares exactly the methods the program's own class C lacks
+        own = set(re.findall(r"^\s*class\s+([A-Z]\w*)", t, re.M))
+        k = 0
+        for _, so, _ in a[:1]:
+            for m in re.finditer(r"(instance|class) method '([^']+)' is not defined for (\w+)", so):
+                kind, meth, cls = m.groups()
+                if cls in own and k < 3:
+                    k += 1
+                    decl = {"name": meth, "arguments": [{"type": "*Untyped"}], "return_type": {"type": ["Int"]}}
+                    f = {"frame": "Builtin", "class": "Zq::" + cls, "instance_methods": [decl] if kind == "instance" else [], "class_methods": [decl] if kind == "class" else [],
+                         "extends": [], "constants": []}
+                    ex["qx_aim_%d.json" % k] = f
+                    json.dump(f, open(os.path.join(d1, ".ti-config", "qx_aim_%d.json" % k), "w"))
+        return a, meta.outputs(ctx, d1, "p.rb", meta.STD_FLAGS)
 
     failures = []
     nontriv = 0
